@@ -16,13 +16,17 @@ EXTENDS Naturals, Integers, Sequences, FiniteSets, TLC, Json, IOUtils, Lexer, Re
 Rec == ndJsonDeserialize(IOEnv.TRACE)
 N == Len(Rec)
 
-VARIABLES i, rp, lexd, st, msgs
-vars == <<i, rp, lexd, st, msgs>>
+VARIABLES i, rp, lastp, lexd, st, apre, apost, msgs
+vars == <<i, rp, lastp, lexd, st, apre, apost, msgs>>
+(* staged through primed variables (TLC re-evaluates LET definitions at every use):
+   rp = reference state after the path (kept while consecutive edges share their path),
+   apre / apost = abstracted generator state before / after the edge                  *)
 
 StInit == [stk |-> <<>>, memo |-> <<>>, cls |-> "", why |-> "", kept |-> 0, key |-> -1]
 LexInit == [op |-> -1, known |-> FALSE, nxt |-> 0, ok |-> FALSE, why |-> "", arg |-> -1]
 
-Init == i = 0 /\ rp = RefInit /\ lexd = LexInit /\ st = StInit /\ msgs = <<>>
+Init == /\ i = 0 /\ rp = RefInit /\ lastp = <<-1>> /\ lexd = LexInit /\ st = StInit
+        /\ apre = [stk |-> <<>>, memo |-> <<>>] /\ apost = [stk |-> <<>>, memo |-> <<>>] /\ msgs = <<>>
 
 (* reference state after executing the bytes of the path steps *)
 RECURSIVE Fold(_, _, _)
@@ -33,9 +37,15 @@ Fold(path, k, r) ==
          IN IF path[k][2] = <<>> \/ ~lx.known THEN Fold(path, k + 1, r)
             ELSE Fold(path, k + 1, [stk |-> s.stk, memo |-> s.memo])
 
-AbsState(p) == [stk |-> AbsSeq(p.stk),
-                memo |-> [k \in {p.memo[j][1] : j \in 1..Len(p.memo)} |->
-                            Abs((CHOOSE d \in {p.memo[j] : j \in 1..Len(p.memo)} : d[1] = k)[2])]]
+(* memo entries arrive sorted by key; the usual case (keys 0..n-1) is built in linear time *)
+AbsState(p) ==
+    LET n == Len(p.memo)
+        dense == \A j \in 1..n : p.memo[j][1] = j - 1
+    IN [stk |-> AbsSeq(p.stk),
+        memo |-> IF n = 0 THEN <<>>
+                 ELSE IF dense THEN [k \in 0..(n - 1) |-> Abs(p.memo[k + 1][2])]
+                 ELSE [k \in {p.memo[j][1] : j \in 1..n} |->
+                          Abs((CHOOSE d \in {p.memo[j] : j \in 1..n} : d[1] = k)[2])]]
 
 MirrorFull(g, r) ==
     /\ Len(g.stk) = Len(r.stk)
@@ -55,16 +65,20 @@ Step ==
            e == Rec[k]
            c == e.cfg
            mc == ModelCfg(c)
-           pre == AbsState(e.pre)
-           post == AbsState(e.post)
            safe == c.unsafe = 0
-           putDelta == {<<x, post.memo[x]>> : x \in {y \in DOMAIN post.memo : y \notin DOMAIN pre.memo \/ pre.memo[y] # post.memo[y]}}
        IN
        /\ i' = k
-       /\ rp' = Fold(e.path, 1, RefInit)
+       /\ lastp' = e.path
+       /\ rp' = IF e.path = lastp THEN rp ELSE Fold(e.path, 1, RefInit)
+       /\ apre' = AbsState(e.pre)
+       /\ apost' = AbsState(e.post)
        /\ lexd' = LexAt(e.bytes, 1)
        /\ st' = IF lexd'.known THEN RefStep(rp', lexd'.op, lexd'.arg) ELSE StInit
-       /\ msgs' =
+       /\ LET pre == apre'
+              post == apost'
+              putDelta == {<<x, post.memo[x]>> : x \in {y \in DOMAIN post.memo : y \notin DOMAIN pre.memo \/ pre.memo[y] # post.memo[y]}}
+              en == EnabledSet(mc, pre.stk, DOMAIN pre.memo)
+          IN msgs' =
             (IF e.err # "" THEN <<V(k, "C09", "forced emission failed: " \o e.err)>> ELSE <<>>)
          \o (IF e.err = "" /\ e.bytes = <<>> THEN <<V(k, "C11", "step emitted no opcode")>> ELSE <<>>)
          \o (IF e.bytes # <<>> /\ ~(lexd'.known /\ lexd'.ok) THEN <<V(k, "C04", lexd'.why)>> ELSE <<>>)
@@ -74,6 +88,7 @@ Step ==
          \o (IF lexd'.known /\ lexd'.op \in BufOps /\ c.buf = 0 THEN <<V(k, "C10", "buffer opcode although not enabled")>> ELSE <<>>)
          \o (IF safe /\ lexd'.known /\ OpProto(lexd'.op) > c.P THEN <<V(k, "C05", "opcode of a later protocol")>> ELSE <<>>)
          \o (IF safe /\ lexd'.known /\ lexd'.op \in {B_PROTO, B_FRAME, B_STOP} THEN <<V(k, "C05", "PROTO/FRAME/STOP chosen as a body opcode")>> ELSE <<>>)
+         \o (IF safe /\ c.P = 0 /\ \E j \in 1..Len(e.bytes) : e.bytes[j] > 127 THEN <<V(k, "C05", "protocol 0 output is not 7-bit ASCII")>> ELSE <<>>)
          \o (IF safe /\ ~MirrorFull(pre, rp') THEN <<D(k, "path", "source state does not mirror the reference (reported on an earlier edge)")>>
              ELSE IF safe /\ lexd'.known /\ lexd'.ok THEN
                   (IF lexd'.op \notin Family(e.op) THEN <<V(k, "C17", "claimed opcode differs from the emitted bytes")>> ELSE <<>>)
@@ -81,9 +96,8 @@ Step ==
                \o (IF st'.cls \in {"", "kind"} /\ ~MirrorFull(post, st')
                    THEN <<V(k, "C17", "simulated state differs from the reference state")>> ELSE <<>>)
              ELSE <<>>)
-         \o (IF MaskSet(e.en) # EnabledSet(mc, pre.stk, DOMAIN pre.memo)
-             THEN <<D(k, "enabled", <<"impl-only", MaskSet(e.en) \ EnabledSet(mc, pre.stk, DOMAIN pre.memo),
-                                      "model-only", EnabledSet(mc, pre.stk, DOMAIN pre.memo) \ MaskSet(e.en)>>)>> ELSE <<>>)
+         \o (IF MaskSet(e.en) # en
+             THEN <<D(k, "enabled", <<"impl-only", MaskSet(e.en) \ en, "model-only", en \ MaskSet(e.en)>>)>> ELSE <<>>)
          \o (IF safe /\ e.err = ""
                 /\ ~\E o \in Emissions(mc, e.op, pre.stk, pre.memo) :
                        /\ Len(post.stk) = Len(pre.stk) - o.pop + Len(o.push)
